@@ -88,7 +88,7 @@ ENGINES = [
     ("pathmodel", "lib/pathmodel.py", "fold-first decision of 'path admits input' and end-state evaluation", "C01 C02 C08 C09 C13 C14 C20"),
     ("artifacts", "lib/artifacts.py", "hand-assembled forge-style artifacts for run_contract/_main", "C03 C04 C05 C10 C11 C15 C16 C18 C20"),
     ("abi", "lib/abi.py", "independent ABI codec", "C03 C04 C12 C13 C15"),
-    ("stubsolver", "lib/stubsolver.py", "scripted solver executable", "C05 C16 C17"),
+    ("stubsolver", "lib/stubsolver.sh", "scripted solver executable", "C05 C16 C17"),
     ("sched", "lib/sched.py", "deterministic thread scheduler over processes.py", "C17"),
 ]
 
